@@ -132,6 +132,10 @@ func generate(g *Gen, prop string, n int) {
 		for i := 0; i < n; i++ {
 			g.genSketchHistory(p)
 		}
+	case "C10t", "C13t":
+		for i := 0; i < n; i++ {
+			g.genStatHistory(strings.TrimSuffix(prop, "t"))
+		}
 	case "C06":
 		for i := 0; i < n; i++ {
 			g.genRoundTripHistory()
